@@ -412,6 +412,7 @@ type depCand struct {
 	key     *keys.BtcKey
 	cls     string
 	used    bool
+	sibling *depCand // another deposit output of the same transaction
 }
 
 var depCands []*depCand
@@ -507,8 +508,10 @@ func (s *bitcoinStream) genDepositTxs(r *tr.Rng) {
 			}
 		}
 		tx := mkTx(r, outs, nin)
+		var sib *depCand
 		if second >= 0 {
-			depCands = append(depCands, &depCand{tx: tx, version: 0, outIdx: uint32(second), evm: evm2, key: key, cls: cls + "/second"})
+			sib = &depCand{tx: tx, version: 0, outIdx: uint32(second), evm: evm2, key: key, cls: cls + "/second"}
+			depCands = append(depCands, sib)
 		}
 		switch r.Intn(40) {
 		case 0: // the block commits to bytes that are a transaction plus one byte: only the parser's "no trailing bytes" rule refuses it
@@ -521,7 +524,7 @@ func (s *bitcoinStream) genDepositTxs(r *tr.Rng) {
 			cls += "/leaf-truncated"
 		}
 		s.mempool = append(s.mempool, tx)
-		depCands = append(depCands, &depCand{tx: tx, version: version, outIdx: outIdx, evm: evm, key: key, cls: cls})
+		depCands = append(depCands, &depCand{tx: tx, version: version, outIdx: outIdx, evm: evm, key: key, cls: cls, sibling: sib})
 	}
 }
 
@@ -679,6 +682,11 @@ func (s *bitcoinStream) genDeposits(r *tr.Rng) {
 			headers[b.height] = b.header
 		}
 		add(item(version, block, txIndex, raw, outIdx, proof, evm, key), c)
+		if sb := d.sibling; sb != nil && !sb.used && r.Chance(75) {
+			// the other deposit output of the same bitcoin transaction, credited in the same batch
+			sb.used = true
+			add(item(sb.version, block, txIndex, raw, sb.outIdx, proof, sb.evm, sb.key), sb.cls)
+		}
 		if r.Chance(8) { // duplicate inside the same batch
 			items = append(items, items[len(items)-1])
 			cls += "+dup-in-batch"
